@@ -1,6 +1,6 @@
 --------------------------- MODULE C18_MCVerifier ---------------------------
 EXTENDS C18_Verifier, Json
-St == [n |-> n]
+St == [pos |-> pos, life |-> life, seen |-> seen]
 EmitEdge == PrintT(<<"VFEDGE", ToJson([s |-> St, op |-> op', t |-> St'])>>)
 MCInit == Init /\ PrintT(<<"VFINIT", ToJson(St)>>)
 =============================================================================
